@@ -206,6 +206,8 @@ type Case struct {
 	Nil    *NilSpec `json:"nil,omitempty"` // kind nilout: a nil result of an interface-typed node (direct oracle only)
 	// kind scalar: int chunks, which concatenate to the last one (direct oracle only)
 	Scalar *ScalarSpec `json:"scalar,omitempty"`
+	// kind ctrl: a Workflow node without a data input (direct oracle only)
+	Ctrl *CtrlSpec `json:"ctrl,omitempty"`
 	// a second input (same keys, other strings, another chunking) for the same compiled object
 	Chunks2 []*V   `json:"chunks2,omitempty"`
 	Inject  string `json:"inject,omitempty"` // "", dupkey, nokey, fmkey: deliberate out-of-domain construction
@@ -329,7 +331,14 @@ func (p *Prog) coqBase() string {
 		return lib.CoqList(ks)
 	}
 	switch p.Op {
-	case "skip", "pass", "direct":
+	case "pass":
+		if p.W != nil {
+			// a passthrough node with state handlers: pre-handler, nothing, post-handler —
+			// in the model a wrapper around the identity
+			return lib.CoqApp("SSub", p.W.coq(), "SId")
+		}
+		return "SId"
+	case "skip", "direct":
 		return "SId"
 	case "node":
 		return lib.CoqApp("SNode", p.W.coq(), lib.CoqN(uint64(p.N.ID)), p.N.coq())
@@ -417,6 +426,9 @@ func (engine) Decode(raw json.RawMessage) (any, error) {
 		return &c, nil
 	}
 	if c.Kind == "scalar" && c.Scalar != nil && len(c.Scalar.Out) > 0 && (c.Scalar.Shape != 4 || len(c.Scalar.In) > 0) {
+		return &c, nil
+	}
+	if c.Kind == "ctrl" && c.Ctrl != nil && len(c.Ctrl.In) > 0 {
 		return &c, nil
 	}
 	if c.Kind == "prog" && c.Prog == nil || c.Kind == "pack" && c.Spec == nil || len(c.Chunks) == 0 {
@@ -567,6 +579,9 @@ func (engine) Run(ci any) lib.Result {
 	}
 	if c.Kind == "scalar" {
 		return runScalar(c)
+	}
+	if c.Kind == "ctrl" {
+		return runCtrl(c)
 	}
 	res := lib.Result{}
 	rec := &recorder{}
@@ -791,6 +806,9 @@ func stats(p *Prog) pstats {
 			feat["multibranch"] = true
 		case "pass":
 			st.nodes++
+			if q.W != nil {
+				feat["passhandler"] = true
+			}
 			feat["passthrough"] = true
 		case "skip":
 			feat["emptyalt"] = true
@@ -907,6 +925,8 @@ func outKeys(p *Prog) map[int]bool {
 		})
 	case "sub":
 		wrapOut(func() map[int]bool { return outKeys(p.Kids[0]) })
+	case "pass":
+		wrapOut(func() map[int]bool { return nil })
 	case "seq":
 		add(outKeys(p.Kids[len(p.Kids)-1]))
 	default:
